@@ -30,8 +30,9 @@ func (c *SurnameListPage) WriteHTMLTo(w io.Writer) (int64, error) {
 		core.NewTableHead("Surname", "Number of Individuals"),
 	}
 
-	for _, surname := range getSurnames(c.document).Strings() {
-		table = append(table, NewSurnameInList(c.document, surname))
+	visibility := c.options.LivingVisibility
+	for _, surname := range getSurnames(c.document, visibility).Strings() {
+		table = append(table, NewSurnameInList(c.document, surname, visibility))
 	}
 
 	return core.NewPage("Surnames", core.NewComponents(
